@@ -230,6 +230,8 @@ func runC20(c *Ctx) {
 	if q := c.P.Pkg("private/bufpkg/bufanalysis"); q != nil {
 		c20PositionsClamped(c, q)
 		c20FormatConstant(c, q)
+		c20AccessorsPlain(c)
+		c20ClampByConstantOnly(c)
 	}
 	c20ExitCodeOwn(c)
 	c20ExitCodeSurvives(c)
